@@ -172,17 +172,22 @@ Section Frames.
   Definition filt (f : nat) (l : list T) : list T := filter (fun e => frame e =? f) l.
 
   (* a history whose writes carry the number of the frame they belong to *)
+  (* bd = the drop call itself closes the open frame (bumps the frame number); with bd = false only
+     flushes delimit frames, which is the reading of the property for programs that drop right
+     after a flush or poll *)
+  Context (bd : bool).
+
   Fixpoint framed (fr : nat) (ops : list (op T)) : Prop :=
     match ops with
     | [] => True
     | OWrite b :: r => Forall (fun e => frame e = fr) b /\ framed fr r
     | OFlush :: r => framed (S fr) r
-    | ODrop :: r => framed (S fr) r
+    | ODrop :: r => framed (if bd then S fr else fr) r
     | _ :: r => framed fr r
     end.
 
   Definition next_frame (fr : nat) (o : op T) : nat :=
-    match o with OFlush | ODrop => S fr | _ => fr end.
+    match o with OFlush => S fr | ODrop => if bd then S fr else fr | _ => fr end.
 
   Definition whole_lt (fr : nat) (Wt : list T) (c : list T) : Prop :=
     exists f, f < fr /\ c = filt f Wt.
@@ -196,7 +201,7 @@ Section Frames.
   Record FI (q : queue T) (fr : nat) (Wt : list T) (X : list (list T)) : Prop := {
     fi_le : Forall (fun e => frame e <= fr) Wt;
     fi_chunks : chunks_framed fr Wt (tl (chunks q));
-    fi_X : Forall (whole_lt fr Wt) X
+    fi_X : Forall (fun c => c = [] \/ whole_lt fr Wt c) X
   }.
 
   Lemma filt_app : forall f a b, filt f (a ++ b) = filt f a ++ filt f b.
@@ -264,10 +269,21 @@ Section Frames.
   (* one call preserves the frame invariant *)
   Lemma step_FI : forall (q : queue T) o q' out x fr Wt X,
     Inv q -> step_post q o q' out x ->
-    match o with OWrite b => Forall (fun e => frame e = fr) b | _ => True end ->
+    match o with
+    | OWrite b => Forall (fun e => frame e = fr) b
+    | ODrop => bd = false -> filt fr Wt = []      (* nothing written since the last flush *)
+    | _ => True
+    end ->
     FI q fr Wt X -> FI q' (next_frame fr o) (Wt ++ wr o) (X ++ x).
   Proof.
     intros q o q' out x fr Wt X HI (HI' & _ & _ & _ & Hx & Hch) Hb [Hle Hc HX].
+    assert (HXg : forall fr' b, fr <= fr' -> Forall (fun e => fr <= frame e) b ->
+                  Forall (fun c => c = [] \/ whole_lt fr' (Wt ++ b) c) X).
+    { intros fr' b Hf Hbb. eapply Forall_impl; [|exact HX]. intros c' [->|Hw]; [now left|right].
+      eapply whole_lt_grow; eauto. }
+    assert (HXm : forall fr', fr <= fr' -> Forall (fun c => c = [] \/ whole_lt fr' Wt c) X).
+    { intros fr' Hf. eapply Forall_impl; [|exact HX]. intros c' [->|Hw]; [now left|right].
+      eapply whole_lt_mono; eauto. }
     destruct o as [b| |n|amt|k clamp| | |]; cbn [next_frame wr] in *; subst x;
       rewrite ?app_nil_r.
     - (* write: the new bytes join the open frame *)
@@ -285,7 +301,7 @@ Section Frames.
         rewrite removelast_app1, last_last. split.
         * eapply Forall_impl; [|exact Hr]. intros c' Hw. eapply whole_lt_grow; eauto.
         * rewrite Hl, filt_app, (filt_all fr b); auto.
-      + eapply Forall_impl; [|exact HX]. intros c' Hw. eapply whole_lt_grow; eauto.
+      + apply HXg; auto.
     - (* flush: the frame counter moves on; a non-empty back chunk is closed *)
       subst q'. split; rewrite ?app_nil_r.
       + eapply Forall_impl; [|exact Hle]. cbn. intros; lia.
@@ -309,62 +325,98 @@ Section Frames.
                change (last (c :: c2 :: r) []) with (last (c2 :: r) []) in Hn.
                destruct (last (c2 :: r) []); auto. discriminate. }
              rewrite Hlast. symmetry. eapply filt_above; eauto.
-      + eapply Forall_impl; [|exact HX]. intros c' Hw. eapply whole_lt_mono; eauto.
+      + apply HXm. lia.
     - destruct Hch as [k0 Hk]. split; auto. rewrite Hk, tl_skipn. now apply chunks_framed_skipn.
     - destruct Hch as [k0 Hk]. split; auto. rewrite Hk, tl_skipn. now apply chunks_framed_skipn.
     - destruct Hch as [k0 Hk]. split; auto. rewrite Hk, tl_skipn. now apply chunks_framed_skipn.
     - destruct Hch as [k0 Hk]. split; auto. rewrite Hk, tl_skipn. now apply chunks_framed_skipn.
-    - (* drop: every discarded chunk is a whole earlier frame, or the whole open frame *)
+    - (* drop: every discarded chunk is a whole earlier frame, or the whole open frame, which is
+         empty when drops do not delimit *)
+      assert (Hfr : fr <= (if bd then S fr else fr)) by (destruct bd; lia).
       split.
       + eapply Forall_impl; [|exact Hle]. cbn. intros; lia.
       + rewrite Hch. destruct (chunks q); exact I.
-      + apply Forall_app. split.
-        * eapply Forall_impl; [|exact HX]. intros c' Hw. eapply whole_lt_mono; eauto.
-        * destruct (tl (chunks q)) as [|c2 r]; [constructor|].
-          cbn [chunks_framed] in Hc. destruct Hc as [Hr Hl].
-          rewrite (removelast_last_split (c2 :: r)) by discriminate.
-          apply Forall_app. split.
-          -- eapply Forall_impl; [|exact Hr]. intros c' Hw. eapply whole_lt_mono; eauto.
-          -- constructor; [|constructor]. exists fr. split; auto.
+      + apply Forall_app. split; [apply HXm; exact Hfr|].
+        destruct (tl (chunks q)) as [|c2 r]; [constructor|].
+        cbn [chunks_framed] in Hc. destruct Hc as [Hr Hl].
+        rewrite (removelast_last_split (c2 :: r)) by discriminate.
+        apply Forall_app. split.
+        * eapply Forall_impl; [|exact Hr]. intros c' Hw. right. eapply whole_lt_mono; eauto.
+        * constructor; [|constructor]. destruct bd.
+          -- right. exists fr. split; auto.
+          -- left. rewrite Hl. now apply Hb.
     - destruct Hch as [k0 Hk]. split; auto. rewrite Hk, tl_skipn. now apply chunks_framed_skipn.
   Qed.
+
+  (* when drops do not delimit frames: every drop finds the open frame empty (nothing has been
+     written since the last flush).  fresh = "no write since the last flush" *)
+  Fixpoint drops_fresh (fresh : bool) (ops : list (op T)) : Prop :=
+    match ops with
+    | [] => True
+    | OWrite _ :: r => drops_fresh false r
+    | OFlush :: r => drops_fresh true r
+    | ODrop :: r => (bd = false -> fresh = true) /\ drops_fresh fresh r
+    | _ :: r => drops_fresh fresh r
+    end.
+
+  Definition next_fresh (fresh : bool) (o : op T) : bool :=
+    match o with OWrite _ => false | OFlush => true | _ => fresh end.
 
   Lemma framed_cons : forall fr o ops, framed fr (o :: ops) ->
     match o with OWrite b => Forall (fun e => frame e = fr) b | _ => True end
     /\ framed (next_frame fr o) ops.
   Proof. intros fr o ops H. destruct o; cbn in *; tauto. Qed.
 
-  Lemma exec_FI : forall ops (q : queue T) R X fr Wt B q' R' X',
+  Lemma drops_fresh_cons : forall fresh o ops, drops_fresh fresh (o :: ops) ->
+    match o with ODrop => bd = false -> fresh = true | _ => True end
+    /\ drops_fresh (next_fresh fresh o) ops.
+  Proof. intros fresh o ops H. destruct o; cbn in *; tauto. Qed.
+
+  Lemma exec_FI : forall ops (q : queue T) R X fr Wt B q' R' X' fresh,
     Inv q -> total_len (chunks q) + length (written ops) <= B -> (N.of_nat B <= usize_max)%N ->
-    framed fr ops -> FI q fr Wt X ->
+    framed fr ops -> drops_fresh fresh ops -> (fresh = true -> filt fr Wt = []) ->
+    FI q fr Wt X ->
     exec q ops R X = Ok (q', R', X') ->
     exists fr', FI q' fr' (Wt ++ written ops) X'.
   Proof.
-    induction ops as [|o ops IH]; intros q R X fr Wt B q' R' X' HI Htot HB Hfr HF E.
+    induction ops as [|o ops IH]; intros q R X fr Wt B q' R' X' fresh HI Htot HB Hfr Hdf Hfresh HF E.
     - cbn in E. inversion E; subst. exists fr. cbn. now rewrite app_nil_r.
     - rewrite written_cons, app_length in Htot. cbn [exec] in E.
       destruct (step_sound q o B HI ltac:(lia) HB) as [[E1 _]|(q1 & r & out & x & E1 & Hpost)];
         rewrite E1 in E; [discriminate|]. cbn [bind] in E.
       destruct (framed_cons fr o ops Hfr) as [Hb Hfr'].
-      pose proof (step_FI q o q1 out x fr Wt X HI Hpost Hb HF) as HF1.
+      destruct (drops_fresh_cons fresh o ops Hdf) as [Hd Hdf'].
+      assert (Hstep : match o with
+                      | OWrite b => Forall (fun e => frame e = fr) b
+                      | ODrop => bd = false -> filt fr Wt = []
+                      | _ => True end).
+      { destruct o; auto. }
+      pose proof (step_FI q o q1 out x fr Wt X HI Hpost Hstep HF) as HF1.
+      assert (Hfresh' : next_fresh fresh o = true -> filt (next_frame fr o) (Wt ++ wr o) = []).
+      { destruct o; cbn [next_fresh next_frame wr]; rewrite ?app_nil_r; auto; try discriminate.
+        - intros _. eapply filt_above; [apply HF|lia].
+        - intro Hf. destruct bd; [|auto]. eapply filt_above; [apply HF|lia]. }
       destruct Hpost as (HI1 & Htot1 & _).
-      destruct (IH q1 (R ++ out) (X ++ x) _ _ B q' R' X' HI1 ltac:(lia) HB Hfr' HF1 E) as [fr' HF'].
+      destruct (IH q1 (R ++ out) (X ++ x) _ _ B q' R' X' _ HI1 ltac:(lia) HB Hfr' Hdf' Hfresh' HF1 E)
+        as [fr' HF'].
       exists fr'. now rewrite written_cons, app_assoc.
   Qed.
 
   Lemma FI_empty : FI qempty 0 [] [].
   Proof. split; cbn; auto. Qed.
 
-  (* every chunk ever discarded is exactly one whole frame of the written stream *)
+  (* every chunk ever discarded is exactly one whole frame of the written stream (an empty chunk
+     is the frame of a number never used) *)
   Theorem dropped_are_whole_frames : forall (ops : list (op T)) q R X,
-    (N.of_nat (length (written ops)) <= usize_max)%N -> framed 0 ops ->
+    (N.of_nat (length (written ops)) <= usize_max)%N -> framed 0 ops -> drops_fresh true ops ->
     exec qempty ops [] [] = Ok (q, R, X) ->
     Forall (fun c => exists f, c = filt f (written ops)) X.
   Proof.
-    intros ops q R X HB Hfr E.
-    destruct (exec_FI ops qempty [] [] 0 [] (length (written ops)) q R X Inv_empty
-                ltac:(cbn; lia) HB Hfr FI_empty E) as [fr' [_ _ HX]].
-    cbn in HX. eapply Forall_impl; [|exact HX]. intros c (f & _ & ->). now exists f.
+    intros ops q R X HB Hfr Hdf E.
+    destruct (exec_FI ops qempty [] [] 0 [] (length (written ops)) q R X true Inv_empty
+                ltac:(cbn; lia) HB Hfr Hdf ltac:(reflexivity) FI_empty E) as [fr' [Hle _ HX]].
+    cbn in HX, Hle. eapply Forall_impl; [|exact HX]. intros c [->|(f & _ & ->)]; [|now exists f].
+    exists (S fr'). symmetry. eapply filt_above; eauto.
   Qed.
 
   (* and, bytes being pairwise distinguishable, none of its bytes was ever handed out or is
@@ -392,35 +444,61 @@ Section Tag.
   Fixpoint tag_bytes (f i : nat) (b : list A) : list tagged :=
     match b with [] => [] | a :: r => (a, (f, i)) :: tag_bytes f (S i) r end.
 
-  Fixpoint tag_ops (f i : nat) (ops : list (op A)) : list (op tagged) :=
+  (* bd: does a drop close the open frame (see Section Frames) *)
+  Fixpoint tag_ops_g (bd : bool) (f i : nat) (ops : list (op A)) : list (op tagged) :=
     match ops with
     | [] => []
-    | OWrite b :: r => OWrite (tag_bytes f i b) :: tag_ops f (i + length b) r
-    | OFlush :: r => OFlush :: tag_ops (S f) i r
-    | ODrop :: r => ODrop :: tag_ops (S f) i r
-    | ORead n :: r => ORead n :: tag_ops f i r
-    | OConsume a :: r => OConsume a :: tag_ops f i r
-    | OConsumeWith k c :: r => OConsumeWith k c :: tag_ops f i r
-    | OConsumeWithErr :: r => OConsumeWithErr :: tag_ops f i r
-    | OReadToEnd :: r => OReadToEnd :: tag_ops f i r
+    | OWrite b :: r => OWrite (tag_bytes f i b) :: tag_ops_g bd f (i + length b) r
+    | OFlush :: r => OFlush :: tag_ops_g bd (S f) i r
+    | ODrop :: r => ODrop :: tag_ops_g bd (if bd then S f else f) i r
+    | ORead n :: r => ORead n :: tag_ops_g bd f i r
+    | OConsume a :: r => OConsume a :: tag_ops_g bd f i r
+    | OConsumeWith k c :: r => OConsumeWith k c :: tag_ops_g bd f i r
+    | OConsumeWithErr :: r => OConsumeWithErr :: tag_ops_g bd f i r
+    | OReadToEnd :: r => OReadToEnd :: tag_ops_g bd f i r
     end.
+
+  Definition tag_ops := tag_ops_g true.
 
   Lemma tag_bytes_untag : forall b f i, map fst (tag_bytes f i b) = b.
   Proof. induction b as [|a b IH]; intros; cbn; auto. now rewrite IH. Qed.
 
-  Lemma tag_ops_untag : forall ops f i, map (op_map fst) (tag_ops f i ops) = ops.
+  Lemma tag_ops_untag : forall bd ops f i, map (op_map fst) (tag_ops_g bd f i ops) = ops.
   Proof.
     induction ops as [|o ops IH]; intros f i; auto.
-    destruct o; cbn [tag_ops map op_map]; rewrite ?IH, ?tag_bytes_untag; reflexivity.
+    destruct o; cbn [tag_ops_g map op_map]; rewrite ?IH, ?tag_bytes_untag; reflexivity.
   Qed.
 
   Lemma tag_bytes_frame : forall b f i, Forall (fun e => tframe e = f) (tag_bytes f i b).
   Proof. induction b as [|a b IH]; intros; cbn; constructor; auto. Qed.
 
-  Lemma tag_ops_framed : forall ops f i, framed tframe f (tag_ops f i ops).
+  Lemma tag_ops_framed : forall bd ops f i, framed tframe bd f (tag_ops_g bd f i ops).
   Proof.
     induction ops as [|o ops IH]; intros f i; cbn; auto.
     destruct o; cbn; auto. split; auto. apply tag_bytes_frame.
+  Qed.
+
+  (* untagged and tagged histories have their drops in the same places *)
+  Fixpoint drops_fresh_plain (fresh : bool) (ops : list (op A)) : Prop :=
+    match ops with
+    | [] => True
+    | OWrite _ :: r => drops_fresh_plain false r
+    | OFlush :: r => drops_fresh_plain true r
+    | ODrop :: r => fresh = true /\ drops_fresh_plain fresh r
+    | _ :: r => drops_fresh_plain fresh r
+    end.
+
+  Lemma tag_ops_drops_fresh : forall ops fresh f i,
+    drops_fresh_plain fresh ops -> drops_fresh false fresh (tag_ops_g false f i ops).
+  Proof.
+    induction ops as [|o ops IH]; intros fresh f i H; cbn; auto.
+    destruct o; cbn in *; auto. destruct H. split; auto.
+  Qed.
+
+  Lemma tag_ops_drops_trivial : forall ops fresh f i, drops_fresh true fresh (tag_ops_g true f i ops).
+  Proof.
+    induction ops as [|o ops IH]; intros fresh f i; cbn; auto.
+    destruct o; cbn; auto. split; auto. discriminate.
   Qed.
 
   Lemma tag_bytes_index : forall b f i e, In e (tag_bytes f i b) -> i <= tindex e < i + length b.
@@ -435,10 +513,10 @@ Section Tag.
     intro H. apply tag_bytes_index in H. cbn in H. lia.
   Qed.
 
-  Lemma tag_ops_index : forall ops f i e, In e (written (tag_ops f i ops)) -> i <= tindex e.
+  Lemma tag_ops_index : forall bd ops f i e, In e (written (tag_ops_g bd f i ops)) -> i <= tindex e.
   Proof.
     induction ops as [|o ops IH]; intros f i e H; [contradiction|].
-    destruct o; cbn [tag_ops written] in H; try (now apply IH in H).
+    destruct o; cbn [tag_ops_g written] in H; try (now apply IH in H).
     - apply in_app_or in H. destruct H as [H|H].
       + apply tag_bytes_index in H. lia.
       + apply IH in H. lia.
@@ -454,25 +532,45 @@ Section Tag.
     - apply IH; auto. intros x Hx. apply Hd. now right.
   Qed.
 
-  Lemma tag_ops_nodup : forall ops f i, NoDup (written (tag_ops f i ops)).
+  Lemma tag_ops_nodup : forall bd ops f i, NoDup (written (tag_ops_g bd f i ops)).
   Proof.
     induction ops as [|o ops IH]; intros f i; [constructor|].
-    destruct o; cbn [tag_ops written]; auto.
+    destruct o; cbn [tag_ops_g written]; auto.
     apply NoDup_app_intro; auto using tag_bytes_nodup.
     intros x H1 H2. apply tag_bytes_index in H1. apply tag_ops_index in H2. lia.
   Qed.
 
   (* the plain run is the tagged run with the tags erased *)
-  Lemma exec_untag : forall ops : list (op A),
-    exec qempty ops [] [] = omap (res_map fst) (exec qempty (tag_ops 0 0 ops) [] []).
+  Lemma exec_untag : forall bd (ops : list (op A)),
+    exec qempty ops [] [] = omap (res_map fst) (exec qempty (tag_ops_g bd 0 0 ops) [] []).
   Proof.
-    intro ops. pose proof (exec_map fst (tag_ops 0 0 ops) qempty [] []) as H.
+    intros bd ops. pose proof (exec_map fst (tag_ops_g bd 0 0 ops) qempty [] []) as H.
     cbn [map] in H. change (qmap fst qempty) with (@qempty A) in H.
     rewrite tag_ops_untag in H. exact H.
   Qed.
 
-  Lemma written_untag : forall ops : list (op A), map fst (written (tag_ops 0 0 ops)) = written ops.
-  Proof. intro ops. now rewrite <- written_map, tag_ops_untag. Qed.
+  Lemma written_untag : forall bd (ops : list (op A)), map fst (written (tag_ops_g bd 0 0 ops)) = written ops.
+  Proof. intros bd ops. now rewrite <- written_map, tag_ops_untag. Qed.
+
+  Lemma frames_gen : forall bd (ops : list (op A)) q R X,
+    (N.of_nat (length (written ops)) <= usize_max)%N ->
+    drops_fresh bd true (tag_ops_g bd 0 0 ops) ->
+    exec qempty ops [] [] = Ok (q, R, X) ->
+    exists qt Rt Xt,
+      exec qempty (tag_ops_g bd 0 0 ops) [] [] = Ok (qt, Rt, Xt)
+      /\ (q, R, X) = res_map fst (qt, Rt, Xt)
+      /\ Forall (fun c => exists f, c = filt tframe f (written (tag_ops_g bd 0 0 ops))) Xt
+      /\ (forall e, In e (concat Xt) -> ~ In e Rt /\ ~ In e (pending qt)).
+  Proof.
+    intros bd ops q R X HB Hdf E. rewrite (exec_untag bd) in E.
+    destruct (exec qempty (tag_ops_g bd 0 0 ops) [] []) as [[[qt Rt] Xt]| | |] eqn:Et; try discriminate.
+    cbn [omap bind] in E. inversion E as [E'].
+    assert (HBt : (N.of_nat (length (written (tag_ops_g bd 0 0 ops))) <= usize_max)%N).
+    { rewrite <- (written_untag bd ops), map_length in HB. exact HB. }
+    exists qt, Rt, Xt. split; auto. split; auto. split.
+    - eapply dropped_are_whole_frames; eauto. apply tag_ops_framed.
+    - eapply dropped_never_delivered; eauto. apply tag_ops_nodup.
+  Qed.
 
   (* Frames are never torn: in every history, every chunk discarded by a drop is one whole
      frame (all the bytes written between two consecutive delimiters, the delimiters being
@@ -485,14 +583,22 @@ Section Tag.
       /\ (q, R, X) = res_map fst (qt, Rt, Xt)
       /\ Forall (fun c => exists f, c = filt tframe f (written (tag_ops 0 0 ops))) Xt
       /\ (forall e, In e (concat Xt) -> ~ In e Rt /\ ~ In e (pending qt)).
-  Proof.
-    intros ops q R X HB E. rewrite exec_untag in E.
-    destruct (exec qempty (tag_ops 0 0 ops) [] []) as [[[qt Rt] Xt]| | |] eqn:Et; try discriminate.
-    cbn [omap bind] in E. inversion E as [E'].
-    assert (HBt : (N.of_nat (length (written (tag_ops 0 0 ops))) <= usize_max)%N).
-    { rewrite <- (written_untag ops), map_length in HB. exact HB. }
-    exists qt, Rt, Xt. split; auto. split; auto. split.
-    - eapply dropped_are_whole_frames; eauto. apply tag_ops_framed.
-    - eapply dropped_never_delivered; eauto. apply tag_ops_nodup.
-  Qed.
+  Proof. intros ops q R X HB E. apply (frames_gen true); auto. apply tag_ops_drops_trivial. Qed.
+
+  (* The strong form, for histories in which nothing is written between the last flush and a
+     drop (the render loop drops right after poll, which flushes; dispose drops what the
+     program left): frames are delimited by flushes ONLY, and every discarded chunk is still one
+     whole frame none of whose bytes is ever handed out.  (Without the hypothesis it is false:
+     write B1; drop; write B2; flush discards B1 and sends B2, two halves of one
+     flush-delimited frame.) *)
+  Theorem frames_never_torn_flush_delimited : forall (ops : list (op A)) q R X,
+    (N.of_nat (length (written ops)) <= usize_max)%N ->
+    drops_fresh_plain true ops ->
+    exec qempty ops [] [] = Ok (q, R, X) ->
+    exists qt Rt Xt,
+      exec qempty (tag_ops_g false 0 0 ops) [] [] = Ok (qt, Rt, Xt)
+      /\ (q, R, X) = res_map fst (qt, Rt, Xt)
+      /\ Forall (fun c => exists f, c = filt tframe f (written (tag_ops_g false 0 0 ops))) Xt
+      /\ (forall e, In e (concat Xt) -> ~ In e Rt /\ ~ In e (pending qt)).
+  Proof. intros ops q R X HB Hd E. apply (frames_gen false); auto. now apply tag_ops_drops_fresh. Qed.
 End Tag.
